@@ -151,7 +151,9 @@ func (hd *HeaderDirectives) ShouldCache(ignoreCacheControl bool) bool {
 		}
 	}
 
-	if !ignoreCacheControl && hd.Expires.IsPresent() {
+	// A positive max-age takes precedence over Expires (RFC 9111 section 5.3).
+	maxAgeGoverns := hd.CacheControl.IsPresent() && hd.CacheControl.Value().maxAge > 0
+	if !ignoreCacheControl && hd.Expires.IsPresent() && !maxAgeGoverns {
 		expires := hd.Expires.Value()
 		if expires.Before(time.Now()) {
 			return false // If the Expires header is in the past, do not cache
